@@ -218,14 +218,17 @@ def add_header_to_file(
     else:
         # The new header is of no use if the reader stumbles over another tag
         # in the file that it cannot parse: it then reads nothing at all.
+        readable = output
+        encoded = output.encode("utf-8", errors="replace")
+        if (
+            SPDX_SNIPPET_INDICATOR not in encoded
+            and len(encoded) > _HEADER_BYTES
+        ):
+            # Only the beginning of such a file is read, in whole lines.
+            readable = encoded[:_HEADER_BYTES].decode("utf-8", errors="replace")
+            readable = readable[: readable.rfind("\n") + 1]
         try:
-            extract_reuse_info(
-                output
-                if SPDX_SNIPPET_INDICATOR.decode("utf-8") in output
-                else output.encode("utf-8", errors="replace")[
-                    :_HEADER_BYTES
-                ].decode("utf-8", errors="replace")
-            )
+            extract_reuse_info(readable)
         except (ExpressionError, ParseError):
             out.write(
                 _(
